@@ -192,7 +192,7 @@ def data_sets(rng) -> list[Any]:
 
 def gen_case(rng) -> dict[str, Any]:
     cfg = tpl.GenCfg(ternary=True, logical_not=True, parens=True, partial_names=["p", "q"], tags=STD_TAGS, max_nodes=10, wild=0.05,
-                     string_lits=STRING_LITS)
+                     string_lits=STRING_LITS, weird_idents=True, wide_floats=True)
     g = tpl.Gen(rng, cfg)
     nodes = g.template(1, 4)
     src = tpl.print_nodes(nodes, tpl.Style(wc=0.15, tight=0.2), rng)
